@@ -1,27 +1,7 @@
-mod c04;
-mod c05_extra;
-mod c06;
-mod c07;
-mod c10;
-mod c15;
-mod c18;
-mod c19;
-mod c20;
-mod checks_play;
-mod conv;
-mod engine;
-mod enums;
-mod obs;
-mod fw;
-mod gen;
-mod play;
+use vcheck::fw::*;
+use vcheck::{fw, gen, registry};
 
-use fw::*;
 use std::path::Path;
-
-fn registry() -> Vec<&'static CheckDef> {
-    vec![&checks_play::C01, &checks_play::C02, &checks_play::C03, &c04::C04, &checks_play::C05, &c06::C06, &c07::C07, &c10::C10, &engine::C11, &engine::C12, &engine::C13, &c15::C15, &enums::C08, &enums::C09, &enums::C14, &enums::C16, &enums::C17, &c18::C18, &c19::C19, &c20::C20]
-}
 
 fn find(id: &str) -> &'static CheckDef {
     registry().into_iter().find(|d| d.id == id).unwrap_or_else(|| {
